@@ -106,7 +106,7 @@ def mod_expr(self: "FcpV2Transformer", tree: "ref:LarkTree") -> "any":
                             and effect_count("append") == 1))
     # C11: the module's text is registered with the logger before it is parsed, so that a syntax error citing the module can be rendered
     ensures_effects(implies(effect_count("call:lark.Lark().parse") + effect_count("raise:lark.Lark().parse") >= 1,
-                            effect_count("call:Logger.add_source") == 1
+                            effect_count("call:Logger.add_source") >= 1
                             and effect_index("call:Logger.add_source", 0)
                             < (effect_index("call:lark.Lark().parse", 0) if effect_count("call:lark.Lark().parse") == 1
                                else effect_index("raise:lark.Lark().parse", 0))))
